@@ -3172,3 +3172,309 @@ func init() {
 	})
 	addDoc("C03", "K21 (= C12 R12e) released nodes are not referenced any more (a double release makes the tree cyclic: stack overflow). K22 (= hash clauses of C13 R13a) declaration hashes are unique per encoding (a collision feeds reflect.Call a value of the wrong type).")
 }
+
+// ---------------------------------------------------------------- releases go through the owner; aliases of a released node
+
+// releaseByOwnerOnly: RemoveAndReleaseTree is called only by code that owns the holders of the node: package idr itself
+// and methods of types that have a Release(*idr.Node) method (the stream readers, the format readers, the hierarchy
+// reader). Anyone else (the ingester, a custom function) must hand the node back through the reader's Release, which
+// also clears the reader's own reference; releasing the tree directly leaves the reader's target/candidate pointing at a
+// pooled node, and the reader's defensive release at its next Read recycles it a second time (seed C15-13).
+//
+// staleAliasAfterRelease: when the released value was, earlier in the same function, stored into a holder field, that
+// field must be overwritten on every path from the release to a return (seed C12-15: `r.target = node` moved in front of
+// the filter; the reject branch released `node` and looped, and the EOF return left r.target dangling).
+func releaseByOwnerOnly(c *core.Ctx, rule string) {
+	c.SSA()
+	idr := c.Pkg("idr")
+	removeFn := c.Func("idr", "RemoveAndReleaseTree")
+	if idr == nil || removeFn == nil {
+		c.Unresolved(rule, "idr.RemoveAndReleaseTree", "not found")
+		return
+	}
+	hasRelease := func(recv types.Type) bool {
+		n := core.NamedOf(recv)
+		if n == nil {
+			return false
+		}
+		ms := c.SSA().MethodSets.MethodSet(types.NewPointer(n))
+		for i := 0; i < ms.Len(); i++ {
+			if ms.At(i).Obj().Name() == "Release" {
+				return true
+			}
+		}
+		return false
+	}
+	n := 0
+	for _, f := range c.RepoFunctions() {
+		if core.IsCLIOrSample(core.FuncPkg(f)) {
+			continue
+		}
+		for _, ci := range core.Calls(f) {
+			if ci.Common().StaticCallee() != removeFn {
+				continue
+			}
+			n++
+			root := f
+			for root.Parent() != nil {
+				root = root.Parent()
+			}
+			key := core.FuncKey(f) + " releases through the owner of the node"
+			owner := core.FuncPkg(f) == idr.Types || (root.Signature.Recv() != nil && hasRelease(root.Signature.Recv().Type()))
+			c.Check(owner, rule, key, core.InstrPos(ci), "called by package idr or by a method of a type that has Release(*Node)",
+				"RemoveAndReleaseTree is called from code that does not own the node's holders (no Release method on its type): the reader that delivered the node still references it and will release it again")
+			// stale alias
+			v := ci.Common().Args[0]
+			if _, isLoad := v.(*ssa.UnOp); isLoad {
+				continue // released through the holder itself: R12e
+			}
+			for _, b := range f.Blocks {
+				for _, in := range b.Instrs {
+					st, ok := in.(*ssa.Store)
+					if !ok || st.Val != v {
+						continue
+					}
+					fa, ok := st.Addr.(*ssa.FieldAddr)
+					if !ok {
+						continue
+					}
+					// is the release reachable after the store?
+					reach := false
+					core.WalkAfter(st, func(u ssa.Instruction) bool {
+						if u == ssa.Instruction(ci) {
+							reach = true
+						}
+						return !reach
+					})
+					if !reach {
+						continue
+					}
+					var stale ssa.Instruction
+					core.WalkAfter(ci, func(u ssa.Instruction) bool {
+						if stale != nil {
+							return false
+						}
+						if s2, ok := u.(*ssa.Store); ok && core.SameValue(s2.Addr, fa) {
+							return false
+						}
+						if _, isRet := u.(*ssa.Return); isRet {
+							stale = u
+							return false
+						}
+						return true
+					})
+					akey := core.FuncKey(f) + " clears holder " + core.FieldOfAddr(fa).Name() + " after releasing its node"
+					c.Check(stale == nil, rule, akey, core.InstrPos(ci), "the field is overwritten on every path from the release to a return",
+						"the released node was stored into field "+core.FieldOfAddr(fa).Name()+" before, and a return is reachable after the release without that field being overwritten: the holder keeps pointing at a pooled node and the next defensive release recycles it again")
+				}
+			}
+		}
+	}
+	c.Floor(rule, 10, "release calls")
+	_ = n
+}
+
+// ---------------------------------------------------------------- an attached node is delivered, held or released
+
+// declSettingCond: the condition data-depends on a load of an exported json-tagged struct field.
+func declSettingCond(cond ssa.Value) (string, bool) {
+	seen := map[ssa.Value]bool{}
+	var walk func(v ssa.Value, d int) (string, bool)
+	walk = func(v ssa.Value, d int) (string, bool) {
+		if v == nil || seen[v] || d > 10 {
+			return "", false
+		}
+		seen[v] = true
+		if u, ok := v.(*ssa.UnOp); ok && u.Op == token.MUL {
+			if fa, ok := u.X.(*ssa.FieldAddr); ok {
+				fv := core.FieldOfAddr(fa)
+				if n := core.NamedOf(fa.X.Type()); n != nil && fv != nil && fv.Exported() {
+					if st, ok := n.Underlying().(*types.Struct); ok {
+						for j := 0; j < st.NumFields(); j++ {
+							if st.Field(j) == fv && reflect.StructTag(st.Tag(j)).Get("json") != "" {
+								return n.Obj().Name() + "." + fv.Name(), true
+							}
+						}
+					}
+				}
+			}
+		}
+		if in, ok := v.(ssa.Instruction); ok {
+			for _, op := range in.Operands(nil) {
+				if *op != nil {
+					if n, ok := walk(*op, d+1); ok {
+						return n, true
+					}
+				}
+			}
+		}
+		return "", false
+	}
+	return walk(cond, 0)
+}
+
+// attachedNodeAccounted: a node a format reader has just obtained and hung under its long-lived root must, on every
+// path, end up returned to the caller, stored in a holder field (whose release paths R17a/R12e check) or released,
+// before the reader fetches the next one or returns. A path that simply goes on (seed C17-15: "skip empty envelopes"
+// by jumping back to the fetch) leaves the node attached for ever.
+func attachedNodeAccounted(c *core.Ctx, rule string, pkgs []string) {
+	c.SSA()
+	addChild := c.Func("idr", "AddChild")
+	removeFn := c.Func("idr", "RemoveAndReleaseTree")
+	if addChild == nil || removeFn == nil {
+		c.Unresolved(rule, "idr.AddChild / RemoveAndReleaseTree", "not found")
+		return
+	}
+	n := 0
+	for _, f := range c.RepoFunctions() {
+		if core.IsCLIOrSample(core.FuncPkg(f)) || !inPkgs(core.FuncPkg(f), pkgs) || f.Name() != "Read" || f.Signature.Recv() == nil {
+			continue
+		}
+		for _, ci := range core.Calls(f) {
+			if ci.Common().StaticCallee() != addChild || len(ci.Common().Args) != 2 {
+				continue
+			}
+			// parent is a holder field of the reader (its root); child is a local value
+			if _, isFld := core.LoadedField(ci.Common().Args[0]); !isFld {
+				continue
+			}
+			v := ci.Common().Args[1]
+			if _, isLoad := v.(*ssa.UnOp); isLoad {
+				continue
+			}
+			def, _ := v.(ssa.Instruction)
+			if def == nil {
+				continue
+			}
+			n++
+			key := core.FuncKey(f) + " accounts for the node it attached under its root"
+			// aliases: the value itself, and loads of the local cells (named results, variables) it is stored into
+			cells := map[*ssa.Alloc]bool{}
+			if u, ok := v.(*ssa.UnOp); ok && u.Op == token.MUL {
+				if a, ok := u.X.(*ssa.Alloc); ok {
+					cells[a] = true
+				}
+			}
+			for _, r := range core.Referrers(v) {
+				if st, ok := r.(*ssa.Store); ok && st.Val == v {
+					if a, ok := st.Addr.(*ssa.Alloc); ok {
+						cells[a] = true
+					}
+				}
+			}
+			isAlias := func(x ssa.Value) bool {
+				if x == v {
+					return true
+				}
+				if u, ok := x.(*ssa.UnOp); ok && u.Op == token.MUL {
+					if a, ok := u.X.(*ssa.Alloc); ok && cells[a] {
+						return true
+					}
+				}
+				return false
+			}
+			// phi aliases (named results are promoted to phis)
+			phiAlias := map[ssa.Value]bool{v: true}
+			for changed := true; changed; {
+				changed = false
+				for _, bb := range f.Blocks {
+					for _, in := range bb.Instrs {
+						if ph, ok := in.(*ssa.Phi); ok && !phiAlias[ph] {
+							for _, e := range ph.Edges {
+								if phiAlias[e] {
+									phiAlias[ph] = true
+									changed = true
+								}
+							}
+						}
+					}
+				}
+			}
+			alias2 := func(x ssa.Value) bool { return isAlias(x) || phiAlias[x] }
+			var leak ssa.Instruction
+			seenB := map[*ssa.BasicBlock]bool{}
+			var walkB func(b *ssa.BasicBlock, start int)
+			walkB = func(b *ssa.BasicBlock, start int) {
+				for i := start; i < len(b.Instrs) && leak == nil; i++ {
+					u := b.Instrs[i]
+					switch y := u.(type) {
+					case *ssa.Store:
+						if alias2(y.Val) {
+							if _, ok := y.Addr.(*ssa.FieldAddr); ok {
+								return // held
+							}
+						}
+					case *ssa.Return:
+						for _, r := range y.Results {
+							if alias2(r) {
+								return
+							}
+						}
+						leak = u
+						return
+					case ssa.CallInstruction:
+						if y.Common().StaticCallee() == removeFn && len(y.Common().Args) == 1 && alias2(y.Common().Args[0]) {
+							return
+						}
+					}
+					if u == def {
+						leak = u // the next node is fetched while this one is unaccounted for
+						return
+					}
+				}
+				if leak != nil {
+					return
+				}
+				keptEdge := func(s *ssa.BasicBlock) bool {
+					// a backward jump taken under a declared setting: the node is kept on purpose (not_target "global" envelopes)
+					if len(b.Instrs) == 0 {
+						return false
+					}
+					ifi, ok := b.Instrs[len(b.Instrs)-1].(*ssa.If)
+					if !ok || !s.Dominates(b) {
+						return false
+					}
+					_, dep := declSettingCond(ifi.Cond)
+					return dep
+				}
+				for _, s := range b.Succs {
+					if keptEdge(s) {
+						continue
+					}
+					if !seenB[s] {
+						seenB[s] = true
+						walkB(s, 0)
+					}
+				}
+			}
+			walkB(ci.Block(), core.InstrIndex(ci)+1)
+			if leak == nil {
+				c.OK(rule, key, core.InstrPos(ci), "every path from the attachment to the next fetch or a return delivers, holds or releases the node")
+			} else {
+				c.Bad(rule, key, core.InstrPos(ci), "a path from the attachment reaches "+c.Position(core.InstrPos(leak))+" (the next fetch or a return) without the node being returned, stored in a holder field or released: it stays linked under the reader's root for ever")
+			}
+		}
+	}
+	c.OK(rule, "attached nodes", 0, fmt.Sprintf("%d attachment(s) of a freshly obtained node under a reader-held root in Read methods of %v", n, pkgs))
+}
+
+func init() {
+	wrapRun("C12", func(c *core.Ctx) {
+		if c.CountRule("R12k") == 0 {
+			releaseByOwnerOnly(c, "R12k")
+		}
+	})
+	wrapRun("C15", func(c *core.Ctx) {
+		if c.CountRule("R15q") == 0 {
+			releaseByOwnerOnly(c, "R15q")
+		}
+	})
+	wrapRun("C17", func(c *core.Ctx) {
+		if c.CountRule("R17i") == 0 {
+			attachedNodeAccounted(c, "R17i", []string{"extensions/omniv21/fileformat"})
+		}
+	})
+	addDoc("C12", "R12k RemoveAndReleaseTree is called only by package idr and by methods of types that own a Release(*Node) method; a released local that was stored into a holder field earlier has that field overwritten on every path to a return.")
+	addDoc("C15", "R15q (= R12k) releases go through the owner.")
+	addDoc("C17", "R17i a freshly obtained node attached under a reader-held root is returned, stored in a holder field or released on every path before the next fetch or a return.")
+}
